@@ -273,6 +273,78 @@ func c02(x *Ctx) {
 		c.Decide(ok, "C02.buffer-removers", fn+"/"+eng.MethodBase(n), x.Pos(s.Instr), "paired with decide+send below", "buffer removal called from "+fn+" where no decision is made for the removed traces")
 	}
 
+	// a queue entry popped in TakeExpiredTraces whose trace is still buffered is accounted for in the same iteration:
+	// pushed back, remembered in a slice (re-queued after the loop), or deleted from the buffer and returned.
+	// Otherwise the trace stays buffered with no queue entry: it never expires and is never decided.
+	const rPop = "C02.pop-accounted"
+	if te := x.Fn(rPop, "collect/cache", "DefaultInMemCache", "TakeExpiredTraces"); te != nil {
+		isPQ := func(in ssa.Instruction, m string) (ssa.CallInstruction, bool) {
+			cl, ok := in.(ssa.CallInstruction)
+			if !ok {
+				return nil, false
+			}
+			n := eng.CalleeName(cl)
+			return cl, strings.Contains(n, "KeyedPriorityQueue") && strings.HasSuffix(n, ")."+m)
+		}
+		var pops []ssa.CallInstruction
+		eng.Instrs(te, func(in ssa.Instruction) {
+			if cl, ok := isPQ(in, "Pop"); ok {
+				pops = append(pops, cl)
+			}
+		})
+		for _, pop := range pops {
+			c.Examined++
+			popOK := extractOf(pop, 2)
+			as := &eng.Assume{Bool: func(v ssa.Value) eng.Tri {
+				for _, e := range popOK {
+					if v == e {
+						return eng.True
+					}
+				}
+				// the comma-ok of the buffer lookup: the trace is still buffered
+				if e, ok := v.(*ssa.Extract); ok && e.Index == 1 {
+					if lk, ok := e.Tuple.(*ssa.Lookup); ok && lk.CommaOk && loadsField(lk.X, cacheMap) {
+						return eng.True
+					}
+				}
+				return eng.Unknown
+			}}
+			h := loopHeader(pop)
+			r := eng.Explore(eng.Query{Fn: te, Assume: as, Start: pop, Classify: func(in ssa.Instruction, _ eng.Facts) eng.Event {
+				if _, ok := isPQ(in, "Push"); ok {
+					return eng.EvKill
+				}
+				if cl, ok := in.(*ssa.Call); ok {
+					if b, ok := cl.Call.Value.(*ssa.Builtin); ok && (b.Name() == "append" || b.Name() == "delete") {
+						return eng.EvKill
+					}
+				}
+				if h != nil && in == h.Instrs[0] {
+					return eng.EvSink
+				}
+				return eng.EvNone
+			}})
+			bad := len(r.Hits) > 0
+			var path string
+			if bad {
+				path = eng.DescribePath(x.P.Pos, r.Hits[0].Path)
+			}
+			for _, e := range r.Exits {
+				if _, ok := e.Instr.(*ssa.Return); ok {
+					bad = true
+					path = eng.DescribePath(x.P.Pos, e.Path)
+				}
+			}
+			if bad {
+				o := c.Violate(rPop, "TakeExpiredTraces/Pop", x.Pos(pop), "a queue entry is popped for a trace that is still buffered and some path to the next iteration / the return neither pushes it back, remembers it for re-queueing, nor removes the trace from the buffer: the trace stays buffered with no queue entry, so it never expires and its spans are never forwarded or dropped")
+				o.Path = path
+			} else {
+				c.Hold(rPop, "TakeExpiredTraces/Pop", x.Pos(pop), "popped entry is pushed back, remembered or removed on every path")
+			}
+		}
+		c.Min(rPop, 1)
+	}
+
 	errNil := func(md ssa.CallInstruction, want eng.Tri) *eng.Assume {
 		errs := extractOf(md, 1)
 		return &eng.Assume{Nil: func(v ssa.Value) eng.Tri {
@@ -302,12 +374,19 @@ func c02(x *Ctx) {
 			take := takes[0].(ssa.Value)
 			mds := callsIn(se, nMakeDecision)
 			var hdr *ssa.BasicBlock
+			wholeDone := false
 			for _, md := range mds {
 				c.Examined++
 				arg := eng.CallArgs(md)[1]
 				if !rangeElemOf(arg, func(v ssa.Value) bool { return v == take }) {
 					c.Violate(rRem, "sendExpiredTracesInCache/decide-arg", x.Pos(md), "makeDecision is not called on the element of the taken slice")
 					continue
+				}
+				if wholeDone {
+				} else if wholeDone = true; truncatedOf(arg, take) {
+					c.Violate(rRem, "sendExpiredTracesInCache/whole-slice", x.Pos(md), "the traces taken out of the buffer are truncated (re-sliced with an upper bound) before the decision loop: the traces cut off have already left the buffer and are never decided")
+				} else {
+					c.Hold(rRem, "sendExpiredTracesInCache/whole-slice", x.Pos(md), "the loop ranges over everything TakeExpiredTraces returned")
 				}
 				h := loopHeader(md)
 				hdr = h
@@ -438,4 +517,31 @@ func loopBody(h *ssa.BasicBlock) *ssa.BasicBlock {
 		}
 	}
 	return nil
+}
+
+// truncatedOf reports whether the slice a range element is taken from derives
+// from src through a re-slice with an upper bound (s[:n], s[a:b]).
+func truncatedOf(elem ssa.Value, src ssa.Value) bool {
+	found := false
+	eng.Derives(elem, func(w ssa.Value) bool {
+		var base ssa.Value
+		switch y := w.(type) {
+		case *ssa.IndexAddr:
+			base = y.X
+		case *ssa.Index:
+			base = y.X
+		}
+		if base != nil {
+			eng.Derives(base, func(u ssa.Value) bool {
+				if sl, ok := u.(*ssa.Slice); ok && sl.High != nil {
+					if _, ok := eng.Derives(sl.X, func(q ssa.Value) bool { return q == src }, eng.FlowOpts{}); ok {
+						found = true
+					}
+				}
+				return false
+			}, eng.FlowOpts{})
+		}
+		return false
+	}, eng.FlowOpts{})
+	return found
 }
